@@ -804,6 +804,11 @@ class SK(object):
                     if sb_.is_zero():
                         raise Raised('ZeroDivisionError', 'division by zero', node)
                     return Sym(sa_.p * sb_.den(), sa_.den() * sb_.p)
+            if op is o.pow and isinstance(a, Sym) and isinstance(b, (int, float, Fraction)) and not isinstance(b, bool) and b == int(b) and 0 <= int(b) <= 6:
+                pp, qq = _P.const(1), _P.const(1)           # a small natural power is the repeated product
+                for _ in range(int(b)):
+                    pp, qq = pp * a.p, qq * a.den()
+                return Sym(pp, qq if a.q is not None else None)
         if isinstance(a, Mono) and isinstance(b, Mono) and op in (o.mul, o.truediv):
             return a.combine(b, 1 if op is o.mul else -1)
         if isinstance(a, Mono) and isinstance(b, (int, float)) and not isinstance(b, bool) and b == 1 and op in (o.mul, o.truediv):
